@@ -485,7 +485,7 @@ func scenC12(c *ctx) {
 				}
 				cf := c.handBuilt(31, c.rng.Intn(3), 4+c.rng.Intn(7), []byte("OCRA-1:X"))
 				if len(names) > 0 && c.rng.Intn(2) == 0 {
-					if sa, err := rawSuiteArg(names[c.rng.Intn(len(names))]); err == nil {
+					if sa, err := rawSuiteArg(c.pickName(names)); err == nil {
 						cf = sa.su.Cfg
 					}
 				}
@@ -579,7 +579,7 @@ func scenC12(c *ctx) {
 				l[j] = "scribbled"
 			}
 			if len(names) > 0 {
-				n := names[c.rng.Intn(len(names))]
+				n := c.pickName(names)
 				cfg := otp.SuiteConfigFromRaws(n)
 				cfg.Digits, cfg.Raw, cfg.IncludeCounter = 99, "scribbled", !cfg.IncludeCounter
 				if s, err := otp.NewRawSuite(n); err == nil {
@@ -614,7 +614,7 @@ func scenC12(c *ctx) {
 			name = string(c.randBytes(c.rng.Intn(20)))
 		case 4:
 			if len(names) > 0 {
-				name = names[c.rng.Intn(len(names))]
+				name = c.pickName(names)
 			}
 		}
 		globbed(func() Event { return doNewRawSuite(k("parsed"), name, false) })
